@@ -792,3 +792,107 @@ def relative_candidates(rng, tree, prev, wire, n):
         rot = list(base[1:]) + [base[0]]
         out.append(rot if isinstance(base, list) else tuple(rot))
     return out
+
+
+# ---------------------------------------------------------------------------------------------
+# candidates of unusual SIZE (many members / elements / characters / digits, deep nesting)
+# ---------------------------------------------------------------------------------------------
+# The other streams offer every KIND at every position, but only in small instances (containers of at most three
+# members, short strings, integers of at most 400 digits).  Code on the refusal path - the helpers that build the
+# error text, the wrappers that re-raise - sees every candidate, so it has to be total for candidates of every size.
+# A big value is described by a *recipe* (so that a case whose value cannot travel as JSON text - an int beyond the
+# str-conversion digit limit, nesting beyond the recursion limit - can still be written to a replay file).
+SIZE_CAT = [9, 17, 33, 41, 64, 100, 129, 257, 1000]
+SIZE_CAT_BIG = SIZE_CAT + [4096, 10007, 65537]
+DIGIT_CAT = [17, 100, 400, 1000, 4299, 4300, 4301, 5000, 20000]      # decimal digits of an int (10**n has n+1)
+DEPTH_CAT = [5, 20, 60]
+DEPTH_CAT_UNMODELLED = [900, 1100, 3000]                                 # around and beyond the recursion limit
+SIZE_ELEMS = [0, 1, -1, 7, 1.5, True, None, 'a', '', 'abc']
+
+
+def _elem(rng, i, mixed):
+    return SIZE_ELEMS[(i * 7 + mixed) % len(SIZE_ELEMS)] if mixed else i
+
+
+def build_big(recipe):
+    """the value a recipe (a JSON-able list) describes"""
+    kind, n = recipe[0], recipe[1]
+    if kind == 'object':            # JSON object / dict with n members
+        return {'k%d' % i: _elem(None, i, recipe[2]) for i in range(n)}
+    if kind == 'object-of-objects':
+        return {'k%d' % i: {'a': i} for i in range(n)}
+    if kind == 'array':             # JSON array / list with n elements
+        return [_elem(None, i, recipe[2]) for i in range(n)]
+    if kind == 'tuple':
+        return tuple(_elem(None, i, recipe[2]) for i in range(n))
+    if kind == 'array-of-arrays':
+        return [[i, 'a'] for i in range(n)]
+    if kind == 'array-of-pairs':    # what dict() accepts
+        return [['k%d' % i, i] for i in range(n)]
+    if kind == 'string':
+        unit = recipe[2]
+        return (unit * (n // len(unit) + 1))[:n]
+    if kind == 'bytes':
+        return bytes(i % 256 for i in range(n))
+    if kind == 'int':               # n+1 decimal digits
+        return recipe[2] * 10 ** n
+    if kind == 'nest-array':        # [[[...]]] n levels deep
+        v = recipe[2]
+        for _ in range(n):
+            v = [v]
+        return v
+    if kind == 'nest-tuple':
+        v = recipe[2]
+        for _ in range(n):
+            v = (v,)
+        return v
+    if kind == 'nest-object':
+        v = recipe[2]
+        for _ in range(n):
+            v = {'a': v}
+        return v
+    raise ValueError('bad recipe %r' % (recipe,))
+
+
+def recipe_travels(recipe):
+    """can the value of this recipe be written as JSON text (to the Lean side, to a replay file)?  An int with more
+    digits than the interpreter's str-conversion limit and a value nested deeper than the encoders recurse can not."""
+    kind, n = recipe[0], recipe[1]
+    if kind == 'int':
+        return n + 1 <= 4300
+    if kind.startswith('nest-'):
+        return n <= max(DEPTH_CAT)
+    return True
+
+
+def big_recipes(rng, wire, big=False):
+    """one recipe of every family, sizes drawn from the catalogues (`wire`: only what json.loads can produce)"""
+    cat = SIZE_CAT_BIG if big else SIZE_CAT
+    n = lambda: rng.choice(cat)
+    mixed = lambda: rng.choice([0, 1, 2, 3])
+    out = [['object', n(), mixed()], ['object', n(), 0], ['object-of-objects', n()],
+           ['array', n(), mixed()], ['array', n(), 0], ['array-of-arrays', n()], ['array-of-pairs', n()],
+           ['string', n() * rng.choice([1, 1, 10]), rng.choice(['x', 'ab', 'ü', '€', '5', '\U0001d11e', 'YWJj', ' '])],
+           ['int', rng.choice([d for d in DIGIT_CAT if not wire or d + 1 <= 4300]), rng.choice([1, -1])],
+           ['nest-array', rng.choice(DEPTH_CAT), rng.choice([1, 'a', None])],
+           ['nest-object', rng.choice(DEPTH_CAT), rng.choice([1, 'a', None])]]
+    if not wire:
+        out += [['tuple', n(), mixed()], ['bytes', n()], ['nest-tuple', rng.choice(DEPTH_CAT), 1],
+                ['int', rng.choice(DIGIT_CAT), rng.choice([1, -1])],
+                [rng.choice(['nest-array', 'nest-tuple', 'nest-object']), rng.choice(DEPTH_CAT_UNMODELLED), 1]]
+    return out
+
+
+def size_candidates(rng, value, wire, cap, big=False):
+    """[(path, recipe)]: a value of unusual size (`build_big(recipe)`) for a position of `value`; `cap` recipes of
+    different families, the first one at the root, the others spread over the positions"""
+    pos = list(positions(value))
+    recipes = big_recipes(rng, wire, big)
+    rng.shuffle(recipes)
+    out = []
+    for i, rec in enumerate(recipes[:cap]):
+        p = pos[(i * 3 + rng.randrange(len(pos))) % len(pos)] if i else ()
+        if i == 1 and len(pos) > 1:
+            p = rng.choice(pos[1:])
+        out.append((p, rec))
+    return out
